@@ -89,6 +89,15 @@ let load_of atom = match String.split_on_char ':' atom with
 
 let status_name = function NORMAL -> "NORMAL" | ABNORMAL -> "ABNORMAL" | CRASH -> "CRASH" | TIMEOUT -> "TIMEOUT"
 
+let split_of atom = match String.split_on_char ':' atom with
+  | ["line"] -> split_line
+  | ["char"] -> split_char
+  | ["jsstr"] -> split_jsstr
+  | ["attrs"] -> split_attrs
+  | ["symbol"] -> split_symbol dEFAULT_CUT_BEFORE dEFAULT_CUT_AFTER
+  | ["symbol"; b; a] -> split_symbol (bytes_of_hex b) (bytes_of_hex a)
+  | _ -> failwith ("atom " ^ atom)
+
 let handle toks = match toks with
   | ["classify"; t; rc] ->
       let st = classify (t = "T") (z_of rc) in
@@ -127,6 +136,29 @@ let handle toks = match toks with
       let rec rep n = if n = 0 then [] else proc0 :: rep (n - 1) in
       let (_, procs) = run_sched sc fs (rep (int_of_string k)) in
       String.concat "," (List.sort compare (List.map (fun z -> string_of_int (int_of_z z)) (results procs)))
+  | "cli" :: argv ->
+      let str_of_bytes bs = String.concat "" (List.map (fun x -> String.make 1 (Char.chr (int_of_n x))) bs) in
+      (match process_args early_table (List.map bytes_of_hex argv) with
+       | Err _ -> "refused"
+       | Ok p ->
+         let c = p.pa_config in
+         let sname = (match c.cf_strategy with SMinimize -> "minimize" | SAround -> "minimize-around"
+             | SBalanced -> "minimize-balanced" | SCollapse -> "minimize-collapse-brace"
+             | SReplaceProps -> "replace-properties-by-globals" | SReplaceArgs -> "replace-arguments-by-globals"
+             | SCheckOnly -> "check-only") in
+         let aname = (match c.cf_atom with ALine -> "TestcaseLine" | AChar -> "TestcaseChar" | AJs -> "TestcaseJsStr"
+             | ASymbol -> "TestcaseSymbol" | AAttrs -> "TestcaseAttrs") in
+         let check = (c.cf_strategy = SCheckOnly) in
+         let optz = function None -> "None" | Some z -> string_of_int (int_of_z z) in
+         Printf.sprintf "%s %s %s %s %s %s %s %s %s | %s" sname aname
+           (if check then "None" else string_of_int (int_of_z c.cf_min))
+           (if check then "None" else string_of_int (int_of_z c.cf_max))
+           (if check then "None" else (match c.cf_repeat with RAlways -> "always" | RLast -> "last" | RNever -> "never"))
+           (if check then "None" else (if c.cf_first then "True" else "False"))
+           (if check then "None" else optz c.cf_limit)
+           (match c.cf_tempdir with None -> "None" | Some t -> str_of_bytes t)
+           (str_of_bytes p.pa_file)
+           (String.concat " " (List.map str_of_bytes p.pa_test_args)))
   | ["load"; atom; d] -> res str_of_tc ((load_of atom) (bytes_of_hex d))
   | ["splitlines"; d] -> "ok " ^ str_of_parts (splitlines (bytes_of_hex d))
   | ["markers"; d] -> (match find_markers (bytes_of_hex d) with
@@ -139,6 +171,10 @@ let handle toks = match toks with
   | ["run"; ("minimize-around" | "minimize-balanced" as k); mn; mx; rp; first; limit; clk; b; p; r; a; file0; verdicts; fuel] ->
       let strat = pairs (if k = "minimize-around" then KAround else KBalanced) (cfg_of mn mx rp first limit) (clock_of clk) in
       str_of_result (run strat (verdict_of verdicts) (nat_of_int (int_of_string fuel)) (tc_of b p r a) (bytes_of_hex file0))
+  | ["run"; "minimize-collapse-brace"; mn; mx; rp; first; limit; clk; atom; b; p; r; a; file0; verdicts; fuel] ->
+      let strat = collapse_brace (cfg_of mn mx rp first limit) (clock_of clk) (split_of atom) in
+      str_of_result (run strat (verdict_of verdicts) (nat_of_int (int_of_string fuel)) (tc_of b p r a) (bytes_of_hex file0))
+  | ["collapse"; d] -> "ok " ^ hex_of_bytes (collapse (bytes_of_hex d))
   | ["run"; "replay"; steps; b; p; r; a; file0; verdicts; fuel] ->
       let step_of s =
         let body = String.sub s 2 (String.length s - 2) in
